@@ -67,7 +67,7 @@ class ExprMixin(object):
 
     # ---------------------------------------------------------------- dispatch
     def ev(self, n, st):
-        if isinstance(n, (ast.Call, ast.Attribute, ast.Subscript, ast.Name, ast.IfExp)) and self.env_keys:
+        if isinstance(n, (ast.Call, ast.Attribute, ast.Subscript, ast.Name, ast.IfExp, ast.Compare, ast.ListComp)) and self.env_keys:
             key = self.unparse(n)
             if key in self.env_keys:
                 self.env_used.add(key)
@@ -673,24 +673,54 @@ class ExprMixin(object):
 
     def comp_map_seq(self, n, var, seq, st, as_list):
         """[f(o) for o in xs] over a symbolic int sequence: fresh sequence r, |r| = |xs|,
-        r[j] == f(xs[j]) for every j (f must be a pure integer expression)."""
+        r[j] == f(xs[j]) for every j (f a pure integer expression); or, when f yields a byte string of
+        constant length L (possibly raising for some elements), the flat concatenation of the chunks."""
         j = fresh('cj')
         s = st.clone()
         s.loc = dict(s.loc)
         s.loc[var] = IntV(seq.t[j])
-        outs = list(self.ev(n.elt, s))
-        if len(outs) != 1 or is_exc(outs[0][1]) or not is_intlike(outs[0][1]):
-            raise Unsupported('comprehension element is not a pure integer expression at line %d' % n.lineno)
-        body = to_int(outs[0][1])
-        r = fresh('comp', IntSeq)
-        s2 = st.clone()
-        s2.pc.append(z3.Length(r) == z3.Length(seq.t))
-        s2.pc.append(z3.ForAll([j], z3.Implies(z3.And(0 <= j, j < z3.Length(seq.t)), r[j] == body)))
-        rv = SeqV(r, 'list')
-        if as_list:
-            yield self.new_list(s2, rv)
-        else:
-            yield s2, rv
+        yield from self.map_over(lambda s_: self.ev(n.elt, s_), s, j, seq, st, as_list, n)
+
+    def map_over(self, body_fn, s, j, seq, st, as_list, n):
+        base = len(s.pc)
+        outs = list(body_fn(s))
+        line = getattr(n, 'lineno', '?')
+        normal = [(s_, v) for s_, v in outs if not is_exc(v)]
+        excs = [(s_, v) for s_, v in outs if is_exc(v)]
+        if len(normal) != 1:
+            raise Unsupported('comprehension element has %d normal outcomes at line %s' % (len(normal), line))
+        s_ok, v = normal[0]
+        cond = z3.And(*s_ok.pc[base:]) if len(s_ok.pc) > base else z3.BoolVal(True)
+        ln = z3.Length(seq.t)
+        if is_intlike(v):
+            if excs:
+                raise Unsupported('comprehension element may raise at line %s' % line)
+            body = to_int(v)
+            r = fresh('comp', IntSeq)
+            s2 = st.clone()
+            s2.pc.append(z3.Length(r) == ln)
+            s2.pc.append(z3.ForAll([j], z3.Implies(z3.And(0 <= j, j < ln), r[j] == body)))
+            rv = SeqV(r, 'list')
+            if as_list:
+                yield self.new_list(s2, rv)
+            else:
+                yield s2, rv
+            return
+        if isinstance(v, SeqV) and const_of(z3.Length(v.t)) is not None:
+            L = const_of(z3.Length(v.t))
+            r = fresh('chunks', IntSeq)
+            all_ok = z3.ForAll([j], z3.Implies(z3.And(0 <= j, j < ln), cond))
+            for s3, ok in self.fork(st, all_ok):
+                if ok:
+                    s3 = s3.clone()
+                    s3.pc.append(z3.Length(r) == L * ln)
+                    s3.pc.append(z3.ForAll([j], z3.Implies(z3.And(0 <= j, j < ln), z3.SubSeq(r, L * j, L) == v.t)))
+                    yield s3, SeqV(r, 'chunks:' + v.kind)
+                else:
+                    cls = excs[0][1].cls if excs else 'Exception'
+                    yield s3, ExcV(cls, 'raised for some element', line if isinstance(line, int) else None)
+            return
+        raise Unsupported('comprehension element %r at line %s' % (v, line))
 
     def comp_map_list(self, n, var, lst, st, as_list):
         """[f(o) for o in xs] over a functional list: the element-wise image (f a pure int expression)"""
